@@ -21,7 +21,7 @@ FORMS_NAMELESS = ["noname", "noname-arr", "noparms", "noparms-arr", "arr-null"] 
 
 # ---------------------------------------------------------------- plaintext documents
 
-def plain_doc(seed, idx=0):
+def plain_doc(seed, idx=0, sig=None):
     """document with every class of leaf: strings of boundary lengths at every nesting depth, streams (plain, Flate,
     empty, block-boundary lengths) with strings in their dictionaries, root XMP metadata with a string in its dictionary,
     a second metadata stream that is NOT the catalog's, direct strings in the trailer"""
@@ -60,6 +60,14 @@ def plain_doc(seed, idx=0):
     for k in range(rng.choice([0, 2, 5])):
         c[b"QVX%d" % k] = d.add(rng.choice([D(A=Str(rb(rng.randint(0, 40))), B=[Str(b"(unbalanced"), 1, None]), [Str(rb(7)), Name(b"N"), Real("1.5")],
                                             Str(rb(rng.randint(0, 33)))]))
+    if sig:
+        # a signature field: the /Contents of the signature dictionary is never encrypted (ISO 32000-2 7.6.2); /Type /Sig is optional (Table 255)
+        sd = D(Filter=N("Adobe.PPKLite"), SubFilter=N("adbe.pkcs7.detached"), ByteRange=[0, 10, 20, 30],
+               Contents=Str(b"\x30\x82" + rb(rng.choice([14, 30, 62]))), Reason=Str(b"signed %d" % idx), M=Str(b"D:20260101000000Z"))
+        if sig == "typed":
+            sd[b"Type"] = N("Sig")
+        field = d.add(D(FT=N("Sig"), T=Str(b"Signature1"), V=d.add(sd)))
+        c[b"AcroForm"] = D(Fields=[field], SigFlags=3)
     d.objects[cat.n] = c
     info = D(Title=Str(b"doc %d" % idx), Author=Str(rb(12)), Producer=Str(b"verif C06"))
     d.trailer = {b"Root": cat}
@@ -215,7 +223,7 @@ class EncFile:
         self.run = runner_lines
         V, R, _ = SCHEMES[plan["scheme"]]
         self.V, self.R, self.kl = V, R, plan["keylen"]
-        self.plain = plain_doc(plan["docseed"], plan.get("idx", 0))
+        self.plain = plain_doc(plan["docseed"], plan.get("idx", 0), plan.get("sig"))
         self.user, self.owner = bytes.fromhex(plan["user"]), bytes.fromhex(plan["owner"])
         self.id0 = bytes.fromhex(plan["id0"])
         self.cf = {}        # name -> method char
@@ -364,6 +372,10 @@ class EncFile:
                     walk(x, num, where, path + ("i%d" % k,))
             elif isinstance(o, dict):
                 for k in sorted(o):
+                    if k == b"Contents" and where == "o" and b"ByteRange" in o and isinstance(o[k], Str):
+                        # the /Contents of a signature dictionary: 'typed' when the dictionary says /Type /Sig
+                        leaves.append(dict(num=num, path=path + ("k" + hexs(k),), kind="s:g1" if o.get(b"Type") == Name(b"Sig") else "s:g0", plain=o[k].b))
+                        continue
                     walk(o[k], num, where, path + ("k" + hexs(k),))
         for n, o in sorted(E.objects.items()):
             if n in self.objstms:
